@@ -16,6 +16,43 @@ CFGS = [{}, {"loop": 3}, {"loop": 1}, {"solver_timeout_branching": 0}, {"solver_
         {"storage_layout": "generic"}]
 
 
+def gen_symjump(rng):
+    """JUMP with a symbolic destination (--symbolic-jump): the destination is an arithmetic combination of label addresses
+    selected by bits of a0, and the same JUMP is reached on several paths that constrain those bits differently (a branch
+    on a condition over a0 or an unrelated word, then a rejoin), so the set of feasible targets differs per path"""
+    from vlib import asm
+    from vlib.evmdiff import MAIN, Scenario
+
+    nt = rng.choice([2, 2, 3])
+    labels = [f"T{i}" for i in range(nt)]
+    bits = [("push", 4), "CALLDATALOAD", ("push", 1), "AND"], [("push", 4), "CALLDATALOAD", ("push", 1), "SHR", ("push", 1), "AND"]
+    pre = []
+    shape = rng.choice(["bit0", "lt", "eq", "other", "none"])
+    if shape != "none":
+        cond = {"bit0": [("push", 4), "CALLDATALOAD", ("push", 1), "AND"],
+                "lt": [("push", rng.choice([1, 2, 3])), ("push", 4), "CALLDATALOAD", "LT"],
+                "eq": [("push", rng.choice([0, 1, 2, 3])), ("push", 4), "CALLDATALOAD", "EQ"],
+                "other": [("push", 0x24), "CALLDATALOAD"]}[shape]
+        side = [("push", rng.randrange(1, 9)), ("push", 0x40), "MSTORE"]
+        if rng.random() < 0.5:
+            pre = cond + [("ref", "J"), "JUMPI"] + side + [("label", "J")]
+        else:
+            pre = cond + [("ref", "S"), "JUMPI", ("ref", "J"), "JUMP", ("label", "S")] + side + [("label", "J")]
+    # dest = T0 + b0*(T1-T0) [+ b1*(T2-T0)]
+    dest = [("ref", "T0")]
+    for i in range(1, nt):
+        dest += [("ref", "T0"), ("ref", labels[i]), "SUB"] + list(bits[i - 1]) + ["MUL", "ADD"]
+    blocks = []
+    for i, l in enumerate(labels):
+        end = rng.choice(["ret", "ret", "rev", "stop"])
+        body = [("label", l), ("push", i + 1), ("push", 0), "MSTORE", ("push", 0x40), "MLOAD", ("push", 0x20), "MSTORE"]
+        body += {"ret": [("push", 0x40), ("push", 0), "RETURN"], "rev": [("push", 0x20), ("push", 0), "REVERT"], "stop": ["STOP"]}[end]
+        blocks += body
+    # a 0x5b byte inside push data, so that an off-by-some destination is not accidentally valid
+    items = pre + dest + ["JUMP", ("push", 0x5B5B), "POP", "INVALID"] + blocks
+    return Scenario({MAIN: asm.assemble(items)}, nargs=2), {f"symjump:{shape}": 1, f"symjump:targets{nt}": 1}
+
+
 def correspond(ctx):
     import z3
 
@@ -39,6 +76,10 @@ def correspond(ctx):
         sevmcheck.run(ctx, ID, dict(FEATURES), n_scenarios=n, n_random_inputs=ctx.scale(6, 12), cfgs=CFGS, malformed=ctx.scale(10, 150))
         state["on"] = True
         sevmcheck.run(ctx, ID, dict(FEATURES), n_scenarios=n, n_random_inputs=ctx.scale(6, 12), cfgs=CFGS, corpus=False)
+        # (iv) symbolic JUMP destinations under --symbolic-jump
+        state["on"] = False
+        sevmcheck.run(ctx, ID, {}, n_scenarios=ctx.scale(24, 600), n_random_inputs=ctx.scale(8, 12),
+                      cfgs=[{"symbolic_jump": True}, {"symbolic_jump": True, "solver_timeout_branching": 0}], gen=gen_symjump, corpus=False)
     finally:
         S.Path.check = orig
     stale = coremodel.compare_core(ctx, ctx.scale(60, 1200))
